@@ -91,6 +91,151 @@ func c42ReachesCompare(s []byte) bool {
 	return false
 }
 
+// ---- history part: construction of inputs that share hash bits with an atom.
+//
+// Lookup is stated as a function of ONE byte string. The history part runs
+// short SEQUENCES of lookups on one goroutine and applies the same oracle
+// Lookup(s)==D[s] to every element of the sequence, so a result that depends
+// on what was looked up before (hidden mutable state) is a violation. Such
+// state is naturally keyed by (a projection of) the 32-bit table hash, so the
+// sequences must contain different strings with equal hash bits; these do not
+// occur by chance and are constructed here, deterministically.
+
+const c42Prime = 16777619
+
+// c42PrimeInv is the inverse of the FNV prime modulo 2^32 (Newton iteration):
+// the step h' = (h ^ b) * prime is undone by h = (h' * inv) ^ b.
+func c42PrimeInv() uint32 {
+	inv := uint32(1)
+	for i := 0; i < 6; i++ {
+		inv *= 2 - c42Prime*inv
+	}
+	return inv
+}
+
+// c42Fwd maps fnv(hash0, p) -> p for the 2^20 three-byte strings p whose first
+// byte is < 16 (packed big-endian; first p in enumeration order wins).
+func c42Fwd() map[uint32]uint32 {
+	m := make(map[uint32]uint32, 1<<20)
+	for p := uint32(0); p < 1<<20; p++ {
+		h := c42Fnv(hash0, []byte{byte(p >> 16), byte(p >> 8), byte(p)})
+		if _, ok := m[h]; !ok {
+			m[h] = p
+		}
+	}
+	return m
+}
+
+// c42Collide returns up to k distinct 6-byte strings x (first byte < 16) with
+// fnv(hash0, x) == target: meet in the middle, three-byte prefixes forwards
+// (fwd), three-byte suffixes undone backwards from target in a fixed order.
+func c42Collide(fwd map[uint32]uint32, target uint32, k int) [][]byte {
+	inv := c42PrimeInv()
+	var out [][]byte
+	for c2 := uint32(0); c2 < 256; c2++ {
+		h2 := target*inv ^ c2
+		for c1 := uint32(0); c1 < 256; c1++ {
+			h1 := h2*inv ^ c1
+			for c0 := uint32(0); c0 < 256; c0++ {
+				if p, ok := fwd[h1*inv^c0]; ok {
+					x := []byte{byte(p >> 16), byte(p >> 8), byte(p), byte(c0), byte(c1), byte(c2)}
+					if c42Fnv(hash0, x) == target {
+						out = append(out, x)
+						if len(out) == k {
+							return out
+						}
+					}
+				}
+			}
+		}
+	}
+	return out
+}
+
+// c42Slot returns the table index at which atom value v with name hash h is
+// stored (one of its two probe positions), or -1.
+func c42Slot(v uint32, h uint32) int {
+	m := uint32(len(table) - 1)
+	for _, i := range []uint32{h & m, (h >> 16) & m} {
+		if uint32(table[i]) == v {
+			return int(i)
+		}
+	}
+	return -1
+}
+
+// c42Partial returns, for the atom name (stored at table index slot), strings
+// of the SAME length that are not in D and whose hash t satisfies, in this
+// order: [0] t&mask == slot (first probe reads the atom's slot);
+// [1] (t>>16)&mask == slot and t&mask != slot (second probe reads it);
+// [2] t&0xffff == h&0xffff; [3] t>>16 == h>>16 (h the hash of the name).
+// Candidates are the name with its last min(len,3) bytes replaced by a
+// big-endian counter 0,1,2,… (at most 2^20 values); the first candidate that
+// satisfies a predicate is taken. A nil entry means none was found.
+func c42Partial(name string, slot int, D map[string]uint32) [4][]byte {
+	var out [4][]byte
+	n := len(name)
+	k := n
+	if k > 3 {
+		k = 3
+	}
+	lim := uint32(1) << (8 * uint(k))
+	if lim > 1<<20 {
+		lim = 1 << 20
+	}
+	h := c42Fnv(hash0, []byte(name))
+	base := c42Fnv(hash0, []byte(name[:n-k]))
+	m := uint32(len(table) - 1)
+	found := 0
+	cand := []byte(name)
+	for ctr := uint32(0); ctr < lim && found < 4; ctr++ {
+		t := base
+		for j := 0; j < k; j++ {
+			b := byte(ctr >> (8 * uint(k-1-j)))
+			cand[n-k+j] = b
+			t = (t ^ uint32(b)) * c42Prime
+		}
+		if t == h {
+			continue // the name itself (or a full collision, built elsewhere)
+		}
+		var hit [4]bool
+		hit[0] = int(t&m) == slot
+		hit[1] = int((t>>16)&m) == slot && !hit[0]
+		hit[2] = t&0xffff == h&0xffff
+		hit[3] = t>>16 == h>>16
+		for q := range hit {
+			if hit[q] && out[q] == nil {
+				if _, isAtom := D[string(cand)]; isAtom {
+					continue
+				}
+				out[q] = append([]byte(nil), cand...)
+				found++
+			}
+		}
+	}
+	return out
+}
+
+// c42Seq is one case of the history part: the lookups are made in this order
+// on one goroutine.
+type c42Seq struct {
+	Kind string   `json:"kind"`
+	Seq  [][]byte `json:"seq"`
+}
+
+// c42Near returns the fixed near-miss variants of a name used by the history
+// part: last byte removed, 'x' appended, last byte with bit 0 flipped, first
+// byte with the case bit flipped.
+func c42Near(name string) [][]byte {
+	b := []byte(name)
+	n := len(b)
+	l := append([]byte(nil), b...)
+	l[n-1] ^= 1
+	f := append([]byte(nil), b...)
+	f[0] ^= 0x20
+	return [][]byte{append([]byte(nil), b[:n-1]...), append(append([]byte(nil), b...), 'x'), l, f}
+}
+
 const c42Lower = "abcdefghijklmnopqrstuvwxyz0123456789-"
 const c42Subst = "abcdefghijklmnopqrstuvwxyz0123456789-ABCDEFGHIJKLMNOPQRSTUVWXYZ_ \x00\xff"
 
@@ -117,8 +262,11 @@ func TestVerif_C42(t *testing.T) {
 		c.Note("dictionary_size", len(D))
 		c.Rule("defined: every exported Atom constant parsed from table.go; String non-empty, Lookup(String)==a, distinct constants have distinct names, every non-zero hash-table slot is a defined constant, every name in the generated testAtomList is in D. " +
 			"misses/hits: ONE oracle Lookup(s)==D[s] (0 if absent) on: every byte string of length<=2 over all 256 bytes (thorough: <=3); every string of length<=4 over [a-z0-9-] (thorough: <=5, and all of length 6 over [a-z]); for every name in D: every deletion, every insertion and substitution at every position over [a-z0-9A-Z-_ NUL 0xff] (thorough: all 256 bytes), case flip at every position and of the whole word, adjacent transposition, every proper prefix and suffix, one-byte extension front/back over all 256 bytes, doubled name; long strings of length 24..40 and 255..258, and every name padded with 256 bytes (length equal modulo 256). " +
-			"non-trivial = a miss for which a probed slot holds an atom of equal length (only the byte comparison decides), or a hit")
-		c.Assume("strings outside the enumerated sets are not executed; 'defined atom' means an exported constant of type Atom in table.go")
+			"non-trivial = a miss for which a probed slot holds an atom of equal length (only the byte comparison decides), or a hit. " +
+			"history (order independence): sequences of lookups made in order on one goroutine, each preceded by one separator lookup of \"\\x00\", the SAME oracle Lookup(s)==D[s] on every element: (a) for EVERY name n in D the family S(n) = {n; k constructed 6-byte non-atoms with the same 32-bit table hash fnv(hash0,.) as n (meet in the middle over the invertible FNV step, first k solutions in a fixed order; k=1, thorough 3); for len(n)>6 k non-atoms of the same length and hash (collision on the first 6 bytes, rest of n kept); non-atoms of n's length, found by counting through its last <=3 bytes (<=2^20 candidates), whose first probe / second probe reads the table slot holding n, and whose hash equals n's in the low / high 16 bits}: every sequence of length 1..3 (thorough 1..4) over S(n); (b) every ordered pair over M = all names and for each name: last byte removed, 'x' appended, last byte^1, first byte^0x20; every triple over the M-strings derived from names of length 1 (thorough <=2). " +
+			"non-trivial history case = the sequence holds two different strings with equal 32-bit hash or probing a common occupied slot")
+		c.Assume("strings outside the enumerated sets are not executed; 'defined atom' means an exported constant of type Atom in table.go; " +
+			"history: only the stated sequences (length <=3/4 within a family, pairs over M, triples over the short part of M) on a single goroutine; state that survives more intervening lookups than that, concurrent callers, and atom.String(bytes) are not examined; the collision constructions are white-box (hash0, table, two probes at h and h>>16)")
 
 		// ---- part 1: the defined atoms
 		vx.Enumerate(c, "defined", vx.Opts{}, func(yield func(c42Def) bool) {
@@ -305,5 +453,165 @@ func TestVerif_C42(t *testing.T) {
 			w.Nontrivial()
 			w.Outcome("hit")
 		})
+
+		// ---- part 4: history independence. Sequences of lookups, made in
+		// order on ONE goroutine (Serial); every element is held to the same
+		// oracle Lookup(s)==D[s], whatever was looked up before it.
+		checkSeq := func(w *vx.W, x c42Seq) {
+			// separator: one lookup of the non-atom "\x00" (held to the oracle
+			// as well), so that the first element of a case does not follow
+			// directly on the last lookup of the previous case and a recorded
+			// case replays on its own
+			if sep := []byte{0}; uint32(Lookup(sep)) != D[string(sep)] {
+				w.Failf("C42/lookup/nonzero-for-non-atom", "Lookup(%q) != 0 as the separator lookup before the sequence %q", sep, x.Seq)
+				return
+			}
+			hit := false
+			for i, s := range x.Seq {
+				want := D[string(s)]
+				got := uint32(Lookup(s))
+				if got == want {
+					hit = hit || want != 0
+					continue
+				}
+				suffix, hist := "", "as the first lookup of the sequence (after the separator lookup \"\\x00\")"
+				if i > 0 {
+					suffix, hist = "-after-other-lookups", fmt.Sprintf("after the lookups %q", x.Seq[:i])
+				}
+				if want == 0 {
+					w.Failf("C42/lookup/nonzero-for-non-atom"+suffix, "Lookup(%q) = %#x (%q) %s, but %q is not the name of a defined atom", s, got, Atom(got).String(), hist, s)
+				} else {
+					w.Failf("C42/lookup/wrong-or-zero-for-atom-name"+suffix, "Lookup(%q) = %#x %s, want %#x", s, got, hist, want)
+				}
+				return
+			}
+			// classification: two DIFFERENT strings of the sequence with equal
+			// full hash, or probing a common occupied slot
+			m := uint32(len(table) - 1)
+			class := 0
+			for i := range x.Seq {
+				for j := i + 1; j < len(x.Seq) && class < 2; j++ {
+					a, b := x.Seq[i], x.Seq[j]
+					if len(a) == 0 || len(b) == 0 || bytes.Equal(a, b) {
+						continue
+					}
+					ha, hb := c42Fnv(hash0, a), c42Fnv(hash0, b)
+					if ha == hb {
+						class = 2
+						break
+					}
+					for _, p := range [2]uint32{ha & m, (ha >> 16) & m} {
+						if table[p] != 0 && (p == hb&m || p == (hb>>16)&m) {
+							class = 1
+						}
+					}
+				}
+			}
+			o := [3]string{"seq of unrelated lookups", "seq with two strings probing one occupied slot", "seq with two strings of equal 32-bit hash"}[class]
+			if hit {
+				o += ", some hit"
+			}
+			if class > 0 {
+				w.Nontrivial()
+			}
+			w.Outcome(o)
+		}
+		// (a) per atom: the name, constructed non-atoms with the same full
+		// hash, and same-length non-atoms sharing its slot / half of its hash
+		fwd := c42Fwd()
+		nColl, maxSeq := vx.Pick(c, 1, 3), vx.Pick(c, 3, 4)
+		var fams [][][]byte
+		withFull, withFullSameLen, famStrings := 0, 0, 0
+		var withPartial [4]int
+		for _, name := range names {
+			h := c42Fnv(hash0, []byte(name))
+			set := [][]byte{[]byte(name)}
+			add := func(x []byte) bool {
+				if x == nil {
+					return false
+				}
+				if _, isAtom := D[string(x)]; isAtom {
+					return false
+				}
+				for _, y := range set {
+					if bytes.Equal(x, y) {
+						return false
+					}
+				}
+				set = append(set, x)
+				return true
+			}
+			for _, x := range c42Collide(fwd, h, nColl) {
+				add(x)
+			}
+			if len(name) > 6 {
+				// same length as the name: collide with the hash state after
+				// its first 6 bytes, keep the rest of the name
+				for _, x := range c42Collide(fwd, c42Fnv(hash0, []byte(name[:6])), nColl) {
+					add(append(x[:6:6], name[6:]...))
+				}
+			}
+			full, same := false, false
+			for _, x := range set[1:] {
+				// white-box: confirmed with the package's own hash function
+				if fnv(hash0, x) == fnv(hash0, []byte(name)) {
+					full = true
+					same = same || len(x) == len(name)
+				}
+			}
+			if full {
+				withFull++
+			}
+			if same {
+				withFullSameLen++
+			}
+			if slot := c42Slot(D[name], h); slot >= 0 {
+				for q, x := range c42Partial(name, slot, D) {
+					if add(x) {
+						withPartial[q]++
+					}
+				}
+			}
+			famStrings += len(set)
+			fams = append(fams, set)
+		}
+		c.Note("history_atoms_with_equal_hash_non_atom", withFull)
+		c.Note("history_atoms_with_equal_hash_non_atom_of_equal_length", withFullSameLen)
+		c.Note("history_atoms_with_same_slot_probe1_probe2_low16_high16", withPartial[:])
+		c.Note("history_family_strings", famStrings)
+		if withFull < len(names) {
+			c.Cap(fmt.Sprintf("no non-atom with the same 32-bit hash was constructed for %d of %d atom names", len(names)-withFull, len(names)))
+		}
+		vx.Enumerate(c, "history-collisions", vx.Opts{Serial: true, NoSample: true}, func(yield func(c42Seq) bool) {
+			for _, set := range fams {
+				if !vx.Strings(set, 1, maxSeq, func(seq [][]byte) bool { return yield(c42Seq{"collision-family", seq}) }) {
+					return
+				}
+			}
+		}, checkSeq)
+		// (b) all ordered pairs over the names and their near misses, all
+		// triples over those of the shortest names
+		var M, M3 [][]byte
+		inM, inM3 := map[string]bool{}, map[string]bool{}
+		for _, name := range names {
+			for _, x := range append([][]byte{[]byte(name)}, c42Near(name)...) {
+				if !inM[string(x)] {
+					inM[string(x)] = true
+					M = append(M, x)
+				}
+				if len(name) <= vx.Pick(c, 1, 2) && !inM3[string(x)] {
+					inM3[string(x)] = true
+					M3 = append(M3, x)
+				}
+			}
+		}
+		c.Note("history_pair_set", len(M))
+		c.Note("history_triple_set", len(M3))
+		vx.Enumerate(c, "history-pairs", vx.Opts{Serial: true, NoSample: true}, func(yield func(c42Seq) bool) {
+			vx.Strings(M, 2, 2, func(seq [][]byte) bool { return yield(c42Seq{"pair", seq}) })
+		}, checkSeq)
+		vx.Enumerate(c, "history-triples", vx.Opts{Serial: true, NoSample: true}, func(yield func(c42Seq) bool) {
+			vx.Strings(M3, 3, 3, func(seq [][]byte) bool { return yield(c42Seq{"triple", seq}) })
+		}, checkSeq)
 	})
 }
